@@ -680,52 +680,76 @@ def select_cross_backend(case, rep, env):
 
 
 def ks_bosonic(case, rep, env):
-    """Statistical monitor: homodyne samples of a single-mode cat state on the bosonic backend against the exact
-    marginal CDF (the accept rule of the rejection sampler is invisible to argument inspection)."""
-    from scipy.special import erf
+    """Statistical monitor for what argument inspection cannot see (proposal weights and accept rule of the bosonic rejection
+    sampler): N sampled outcomes of a cat state - homodyne on the cat axis, at an oblique angle, across the axis, or heterodyne
+    (real part) - are binned into 12 cells that are equiprobable under the exact Born distribution (RefFock ket, Hermite
+    functions / coherent-state overlaps computed here).  Two stages with fresh streams: a cell count more than 4.5 sigma off
+    triggers a second run with 5 N samples, which must be more than 6 sigma off to report (joint false-alarm rate < 1e-11)."""
+    import math
+
+    from .. import reffock as rf
 
     sf, ops = env["sf"], env["ops"]
     a, N, seed = case["a"], case["N"], case["seed"]
-    rep.case(["ks", a, N, seed], True)
+    kind = case.get("meas", "x")
+    phi = {"x": 0.0, "oblique": 1.0, "p": np.pi / 2, "heterodyne": 0.0}[kind]
+    par = case.get("parity", 0)
+    rep.case(["ks", a, N, seed, kind, par], True)
+    D = 45
+    ket = rf.FState.cat_ket(a, 0.0, par, D)
+    if kind == "heterodyne":
+        g = np.linspace(-5.5, 5.5, 331)
+        B = g[:, None] + 1j * g[None, :]
+        amp = np.zeros_like(B)
+        for n_ in range(D):
+            amp = amp + ket[n_] * np.conj(B) ** n_ / math.sqrt(math.factorial(n_))
+        Q = np.abs(np.exp(-np.abs(B) ** 2 / 2) * amp) ** 2 / np.pi
+        dens = Q.sum(axis=1) * (g[1] - g[0])
+        grid = g
+    else:
+        grid = np.linspace(-13, 13, 5201)
+        H = rf.FState.hermite_functions(D, grid)
+        psi = (ket[:, None] * np.exp(-1j * phi * np.arange(D))[:, None] * H).sum(axis=0)
+        dens = np.abs(psi) ** 2
+    cdf = np.concatenate([[0.0], np.cumsum((dens[1:] + dens[:-1]) / 2 * np.diff(grid))])
+    cdf = cdf / cdf[-1]
+    K = 12
+    edges = np.interp(np.arange(1, K) / K, cdf, grid)
 
     def draw(N, seed):
         np.random.seed(seed)
         xs = []
         prog = sf.Program(1)
         with prog.context as q:
-            ops.Catstate(a, 0.0, 0) | q[0]
-            ops.MeasureX | q[0]
+            ops.Catstate(a, 0.0, par) | q[0]
+            if kind == "heterodyne":
+                ops.MeasureHeterodyne() | q[0]
+            else:
+                ops.MeasureHomodyne(phi) | q[0]
         eng = sf.Engine("bosonic")
-        for i in range(N):
+        for _ in range(N):
             res = eng.run(prog)
             xs.append(float(np.real(np.ravel(res.samples)[0])))
             eng.reset()
-        return np.sort(np.array(xs))
+        return np.array(xs)
 
-    def cdf(x):
-        # even cat (|a> + |-a>)/N: p(x) = [N(x; 2a, 1) + N(x; -2a, 1) + 2 exp(-2a^2) N(x; 0, 1)] / (2 (1 + exp(-2 a^2)))  (hbar = 2)
-        c = np.exp(-2 * a ** 2)
-        Phi = lambda z: 0.5 * (1 + erf(z / np.sqrt(2)))
-        return (Phi(x - 2 * a) + Phi(x + 2 * a) + 2 * c * Phi(x)) / (2 * (1 + c))
-
-    def ks(xs):
+    def zmax(xs):
+        counts = np.bincount(np.searchsorted(edges, xs), minlength=K)
         n = len(xs)
-        F = cdf(xs)
-        return max(np.max(np.arange(1, n + 1) / n - F), np.max(F - np.arange(0, n) / n))
+        z = (counts - n / K) / np.sqrt(n * (1 / K) * (1 - 1 / K))
+        return float(np.max(np.abs(z))), counts
 
-    xs = draw(N, seed)
-    stat = ks(xs)
-    bound = np.sqrt(np.log(2 / 1e-9) / (2 * N))
+    z1, c1 = zmax(draw(N, seed))
     rep.monitor("ks:bosonic-sampler")
-    rep.dev("ks.bosonic-cat/bound", stat / bound, 1.0)
-    if stat > bound:
-        xs2 = draw(5 * N, seed + 1)
-        stat2 = ks(xs2)
-        bound2 = np.sqrt(np.log(2 / 1e-9) / (10 * N))
-        if stat2 > bound2:
-            rep.violation("bosonic.measure_dyne", "sampling-distribution", "homodyne samples of an even cat state (a=%.2f) deviate from the "
-                          "exact marginal: KS statistic %.4f > %.4f (N=%d), confirmed with %.4f > %.4f (N=%d)" % (
-                              a, stat, bound, N, stat2, bound2, 5 * N), case)
+    rep.seen("sampler-statistics", "%s a=%.1f parity=%s" % (kind, a, par))
+    rep.dev("bosonic-sampler.max|z|(stage 1)/4.5", z1 / 4.5, 1.0)
+    if z1 > 4.5:
+        z2, c2 = zmax(draw(5 * N, seed + 1))
+        rep.observe("sampler-statistics.second-stage")
+        if z2 > 6.0:
+            rep.violation("bosonic.measure_dyne", "sampling-distribution", "%s outcomes of a cat state (a=%.2f, parity %s) do not follow the Born "
+                          "distribution: counts in 12 equiprobable cells %s (N=%d, max |z| = %.1f), confirmed with a fresh stream: %s (N=%d, "
+                          "max |z| = %.1f)" % (kind, a, par, c1.tolist(), N, z1, c2.tolist(), 5 * N, z2), case)
 
 
 # ---------------------------------------------------------------------------------------------
@@ -986,7 +1010,7 @@ def gen_nongauss_case(rng):
 
 def plan(tier, seed, scale=1.0):
     n = int((60 if tier == "quick" else 1300) * scale)
-    return [{"n": n, "timeout": 3000, "ksN": 250 if tier == "quick" else 2500} for _ in range(16)]
+    return [{"n": n, "timeout": 3000, "ksN": 2500 if tier == "quick" else 12000} for _ in range(16)]
 
 
 def dispatch(case, rep, env):
@@ -1025,8 +1049,8 @@ def run_shard(shard, rep):
         except Exception as e:
             rep.error("run_case:" + case["kind"] + ":" + case.get("meas", {}).get("kind", "") + ":" + case.get("backend", ""), e)
     try:
-        ks_bosonic({"kind": "ks", "a": float(rng.choice([0.8, 1.2, 1.6])), "N": shard["ksN"], "seed": int(rng.integers(2 ** 31))},
-                   rep, env)
+        ks_bosonic({"kind": "ks", "a": float(rng.choice([0.8, 1.2, 1.5])), "N": shard["ksN"], "seed": int(rng.integers(2 ** 31)),
+                    "meas": ["x", "oblique", "p", "heterodyne"][shard["id"] % 4], "parity": int(rng.integers(2))}, rep, env)
     except Exception as e:
         rep.error("ks", e)
 
